@@ -27,6 +27,12 @@ func syncEvents(p *pkg, body ast.Node) []string {
 			if strings.Contains(s, ".timer.Reset(") || strings.HasPrefix(s, "time.NewTimer(") || strings.HasPrefix(s, "close(") {
 				out = append(out, s)
 			}
+		case *ast.SelectStmt:
+			out = append(out, "select")
+		case *ast.CommClause:
+			if x.Comm == nil {
+				out = append(out, "default:")
+			}
 		case *ast.SendStmt:
 			out = append(out, p.src(x.Chan)+" <- "+p.src(x.Value))
 		case *ast.UnaryExpr:
